@@ -364,7 +364,7 @@ type world struct {
 	cliRx  *rx
 	srvRx  *rx
 	seqs   map[string]int // packets written so far per (direction, media, payload type): one receiver each
-	n      int               // pattern counter
+	n      int            // pattern counter
 	names  map[*description.Media]string
 	nmu    sync.Mutex
 }
@@ -696,6 +696,8 @@ func errClass(s string) string {
 
 func runWire(job WireJob) (out JobOut) {
 	out.Counts = map[string]int{}
+	t0 := time.Now()
+	defer func() { out.Counts["ms/"+job.name()+"/"+job.Target] += int(time.Since(t0).Milliseconds()) }()
 	outcomes := map[string]bool{}
 	defer func() {
 		for k := range outcomes {
